@@ -1,6 +1,6 @@
 (* C13 — Topic aliases always resolve to the intended topic at the receiver.  Statements only;
-   proofs in Conn/Session.v.  Nothing else may be added to this file. *)
-From MQ Require Import Base.Prelude Conn.Types Conn.TopicAlias Conn.ConnRecord Conn.Step Corr.ConnTrace Conn.Session.
+   proofs in Conn/Session.v, Conn/AliasTable.v and Conn/AliasInv.v.  Nothing else may be added to this file. *)
+From MQ Require Import Base.Prelude Conn.Types Conn.TopicAlias Conn.ConnRecord Conn.Step Corr.ConnTrace Conn.Session Conn.AliasTable Conn.AliasInv.
 
 (* receive side, every state: an aliased PUBLISH with an empty topic is delivered with exactly the
    topic bound to that alias on this connection, one with a topic is delivered as it is, and
@@ -36,10 +36,49 @@ Theorem C13_stored_form_alias : forall g p t,
 Proof. exact stored_form_alias. Qed.
 Print Assumptions C13_stored_form_alias.
 
-(* C13_partial: the send-side statement over histories ("an empty topic is only sent with an alias
-   that an earlier PUBLISH sent on this connection bound to that topic") is decided by the monitor
-   mon_c13 — an independent receiver-side alias table replayed over the implementation's sent
-   packets — and by the correspondence; it is not yet a theorem. *)
+(* SEND SIDE.  The receiver is a ghost table G built only from the packets requested for sending on
+   this connection ([rx_step]: a PUBLISH with a topic and an alias binds it; [rx_topic]: how a
+   conformant receiver resolves a PUBLISH); [agree c G]: the sender's table (with its representation
+   invariant) knows no binding that G does not have.  For EVERY state with [agree], every v5.0 PUBLISH
+   handed to send() — topic given, alias chosen by the application, by automatic mapping (including
+   least-recently-used eviction) or by automatic replacement, stored or not, accepted or refused —
+   at most one packet is requested; the receiver resolves it to the topic the application asked for
+   (its own topic, or the topic its alias is bound to); its alias is within 1..=Topic Alias Maximum;
+   and [agree] holds again with the receiver's table after that packet: a binding enters the sender's
+   table only together with the packet that teaches it to the receiver. *)
+Theorem C13_send_resolvable : forall g c p G,
+  agree c G -> send_spec G p (send_publish_v5 g c p).
+Proof. exact send_publish_v5_resolvable. Qed.
+Print Assumptions C13_send_resolvable.
+
+(* insert_or_update of the send-side table, every table satisfying the representation invariant: the
+   alias is bound to the new topic, every other alias keeps its topic, the invariant is kept (in
+   particular the topic -> alias index used by automatic mapping stays consistent) *)
+Theorem C13_insert_or_update_spec : forall s t a s',
+  tas_inv s -> tas_insert s t a = Ok s' ->
+  look s' a = Some t /\ (forall b, b <> a -> look s' b = look s b) /\ ts_max s' = ts_max s /\ tas_inv s'.
+Proof. exact tas_insert_spec. Qed.
+Print Assumptions C13_insert_or_update_spec.
+
+(* [agree] holds for a fresh object, after notify_closed (with ANY receiver table: bindings do not
+   survive the connection, the ghost restarts empty), and when a CONNACK installs a new table *)
+Theorem C13_fresh_agree : forall g v G, agree (conn_new g v) G.
+Proof. exact fresh_agree. Qed.
+Print Assumptions C13_fresh_agree.
+Theorem C13_closed_agree : forall c c' e G, do_closed c = Ok (c', e) -> agree c' G.
+Proof. exact closed_agree. Qed.
+Print Assumptions C13_closed_agree.
+Theorem C13_connack_limits_agree : forall c p c' G,
+  match k_tam p with Some m => m <= 65535 | None => True end ->
+  agree c G -> connack_recv_limits c p = Ok c' -> agree c' G.
+Proof. exact connack_recv_limits_agree. Qed.
+Print Assumptions C13_connack_limits_agree.
+
+(* C13_partial: still decided by the monitor mon_c13 (an independent receiver-side table replayed over
+   the implementation's sent packets) and the correspondence rather than a theorem: that the calls
+   other than send(PUBLISH), CONNACK/CONNECT received and notify_closed leave the sender's table
+   alone and request no aliased PUBLISH (retransmissions carry the full topic: C13_stored_form_topic, C13_stored_form_alias),
+   i.e. the lift of C13_send_resolvable to whole histories. *)
 
 Example C13_nonvacuous :
   let g := mkCfg RServer 65535 2 in
@@ -50,3 +89,21 @@ Example C13_nonvacuous :
   | _ => False
   end.
 Proof. vm_compute. reflexivity. Qed.
+
+(* the send-side theorem's premise is satisfiable and its conclusion is not trivial: automatic mapping
+   on a connected client binds alias 1 to the topic by sending topic + alias, and the receiver learns it *)
+Example C13_send_nonvacuous :
+  let g := mkCfg RClient 65535 2 in
+  match tas_new 2 with
+  | Ok s =>
+    let c := set_auto_map (set_ta_send (set_status (conn_new g V50) Connected) (Some s)) true in
+    let p := mkPkt 3 V50 0 0 false false [116; 47; 49] None 0 0 12 false 0 false 0 None None None None None in
+    match send_publish_v5 g c p with
+    | Ok (c', e) => match sends e with
+                    | [q] => k_alias q = Some 1 /\ rx_step [] q = [(1, [116; 47; 49])] /\ rx_topic (rx_step [] q) q = Some [116; 47; 49]
+                    | _ => False end
+    | Panic _ => False
+    end
+  | Panic _ => False
+  end.
+Proof. vm_compute. repeat split; reflexivity. Qed.
